@@ -180,8 +180,9 @@ class Interp(ExprMixin, CallMixin, AnyMixin):
     def setitem(self, obj, idx, v, node=None):
         obj = self.force(obj)
         if isinstance(obj, dict):
-            if isinstance(idx, (str, int)):
-                obj[idx] = v
+            k = self.dict_key(idx)
+            if k is not None:
+                obj[k] = v
                 return
         if isinstance(obj, EnumMap):
             self.enummap_set(obj, idx, v)
@@ -353,7 +354,27 @@ class Interp(ExprMixin, CallMixin, AnyMixin):
     def s_While(self, node, env):
         spec = self.loop_specs.get((env.func.key, self.loop_ordinal(env, node)))
         if spec is None:
-            raise Unsupported(f"while loop without invariant at {env.func.key}:{node.lineno}")
+            # concrete mode only (encoder cross-check): the test must evaluate to a definite value every time
+            for _ in range(100000):
+                t = self.truth(self.eval(node.test, env))
+                if not isinstance(t, bool):
+                    t = z3.simplify(t)
+                    if z3.is_true(t):
+                        t = True
+                    elif z3.is_false(t):
+                        t = False
+                    else:
+                        raise Unsupported(f"while loop without invariant at {env.func.key}:{node.lineno}")
+                if not t:
+                    self.exec_block(node.orelse, env)
+                    return
+                try:
+                    self.exec_block(node.body, env)
+                except BreakSig:
+                    return
+                except ContinueSig:
+                    continue
+            raise Unsupported("concrete while loop did not terminate")
         return self.exec_spec_loop(node, env, spec)
 
     def assigned_locals(self, body):
